@@ -105,11 +105,13 @@ func Send[T any](ch chan<- T, v T) {
 // the Wait began, and re-acquires L. Spurious wake-ups are within sync.Cond's contract, so Signal is
 // implemented as Broadcast.
 type Cond struct {
-	L   sync.Locker
-	gen uint64
-	mu  sync.Mutex
-	rc  *sync.Cond
+	L       sync.Locker
+	mu      sync.Mutex
+	rc      *sync.Cond
+	waiters []*condWaiter
 }
+
+type condWaiter struct{ woken bool }
 
 // NewCond replaces sync.NewCond.
 func NewCond(l sync.Locker) *Cond { return &Cond{L: l} }
@@ -123,20 +125,23 @@ func (c *Cond) real() *sync.Cond {
 	return c.rc
 }
 
+// Wait keeps sync.Cond's contract: it returns only after a Signal that chose this waiter or a Broadcast that
+// happened after it started waiting.
 func (c *Cond) Wait() {
 	w := W
 	if w == nil || !w.sched.active {
 		c.real().Wait()
 		return
 	}
+	me := &condWaiter{}
 	c.mu.Lock()
-	g := c.gen
+	c.waiters = append(c.waiters, me)
 	c.mu.Unlock()
 	c.L.Unlock()
 	for {
 		w.yield(true)
 		c.mu.Lock()
-		woke := c.gen != g
+		woke := me.woken
 		c.mu.Unlock()
 		if woke {
 			break
@@ -146,11 +151,35 @@ func (c *Cond) Wait() {
 	c.L.Lock()
 }
 
-func (c *Cond) Signal() { c.Broadcast() }
+// Signal wakes ONE waiter (which one is the world's choice: sync.Cond promises no order), none if nobody waits.
+func (c *Cond) Signal() {
+	w := W
+	if w == nil || !w.sched.active {
+		c.mu.Lock()
+		rc := c.rc
+		c.mu.Unlock()
+		if rc != nil {
+			rc.Signal()
+		}
+		return
+	}
+	c.mu.Lock()
+	if n := len(c.waiters); n > 0 {
+		k := w.Choose(n, "cond.signal")
+		c.waiters[k].woken = true
+		c.waiters = append(c.waiters[:k], c.waiters[k+1:]...)
+	}
+	c.mu.Unlock()
+	Progress()
+	Yield()
+}
 
 func (c *Cond) Broadcast() {
 	c.mu.Lock()
-	c.gen++
+	for _, x := range c.waiters {
+		x.woken = true
+	}
+	c.waiters = nil
 	rc := c.rc
 	c.mu.Unlock()
 	if rc != nil {
